@@ -72,6 +72,8 @@ def REQUIRED(tier):
     }
     req = {name: n * k for name, n in req.items()}
     req["oracle.stale-view"] = 60 * k
+    req["oracle.rmfa.argument-unchanged"] = 3000 * k
+    req["oracle.rmfv.argument-unchanged"] = 10000 * k
     req["realistic.cdxml-molecules"] = 50
     return req
 
@@ -494,8 +496,20 @@ def chunk_rotvec(spec, ctx):
         witness = {"v1": jl(v1), "v2": jl(v2), "tol": tol, "cos": c, "numpy_global_seed": npseed, **meta}
         reported = False
         np.random.seed(npseed)
+        if j % 3 == 0 and isinstance(v1, np.ndarray) and isinstance(v2, np.ndarray):
+            # vectors that are views of a live float64 table (rows of a coordinate array): must come back unchanged
+            table = np.array([np.asarray(v1, dtype=np.float64), np.asarray(v2, dtype=np.float64)])
+            v1, v2 = table[0], table[1]
+        before = [np.array(v, copy=True) if isinstance(v, np.ndarray) else None for v in (v1, v2)]
         try:
             r = f(v1, v2, **kw)
+            for nm, v, b in (("v1", v1, before[0]), ("v2", v2, before[1])):
+                if b is not None:
+                    ctx.count("oracle.rmfv.argument-unchanged")
+                    if not np.array_equal(v, b):
+                        ctx.violation(f"rotation_matrix_from_vectors:modifies-its-argument:{nm}", case=case, by="harness", **witness)
+            v1 = before[0] if before[0] is not None else v1
+            v2 = before[1] if before[1] is not None else v2
         except contracts.ContractViolation as e:
             np.random.seed(npseed)
             try:
@@ -580,8 +594,19 @@ def chunk_rotaxis(spec, ctx):
                  sample=smp(ctx, {"op": "rotation_matrix_from_axis", "axis": jl(axis), "angle": angle}))
         witness = {"axis": jl(axis), "angle": angle, "axis_class": aclass}
         reported = False
+        # the axis is often a view of live data (a row of a coordinate table): building a matrix must not change it
+        if j % 3 == 0 and not isinstance(axis, list):
+            table = np.array([gvec(rng), np.asarray(axis, dtype=np.float64), gvec(rng)])
+            axis = table[1]
+        axis_before = np.array(axis, copy=True) if isinstance(axis, np.ndarray) else None
         try:
             r = f(axis, angle)
+            if axis_before is not None:
+                ctx.count("oracle.rmfa.argument-unchanged")
+                if not np.array_equal(axis, axis_before):
+                    ctx.violation("rotation_matrix_from_axis:modifies-its-argument", case=case, by="harness",
+                                  before=jl(axis_before), after=jl(axis), **witness)
+                    axis = axis_before
         except contracts.ContractViolation as e:
             try:
                 r = raw(axis, angle)
